@@ -506,6 +506,9 @@ func handle(r *Req) (resp Resp) {
 			resp["edges"] = d["edges"]
 			resp["tree"] = dumpTree(tree.RootNode(), "")
 		}
+		if r.Graph != "" {
+			graphs[r.Graph] = g
+		}
 		resp["n"] = len(g.Nodes)
 		resp["treeSize"] = countTree(tree.RootNode())
 		resp["outcome"] = "ok"
